@@ -456,6 +456,10 @@ impl GrammarAST {
 
             while let Some(pidx) = todo.pop() {
                 let prod = &self.prods[pidx];
+                // A token which only lends its precedence to a production (`%prec UMINUS`) is used.
+                if let Some(name) = &prod.precedence {
+                    seen_tokens.insert(name);
+                }
                 for sym in &prod.symbols {
                     match sym {
                         Symbol::Rule(name, _) => {
